@@ -92,9 +92,10 @@ CHILDREN = {
     'Math': _u(MATH_EXPR, CODE_EXPR, ['Hash', 'Semicolon', 'LeftParen', 'RightParen', 'Comma', 'Colon', 'Dots'], TRIVIA),
     # first and last child are the delimiters (MathText / MathShorthand / Escape ...), reached through open()/close(); in between:
     'MathDelimited': _u(['Math'], TRIVIA),
-    'MathAttach': _u(MATH_EXPR, ['Underscore', 'Hat', 'Hash'], CODE_EXPR, TRIVIA),
-    'MathFrac': _u(MATH_EXPR, ['Slash', 'Hash'], CODE_EXPR, TRIVIA),
-    'MathRoot': _u(MATH_EXPR, ['Root', 'Hash'], CODE_EXPR, TRIVIA),
+    # (an embedded code expression may be closed by `;`: `$x^#2;n$` - the Semicolon is a child of the attach / frac / root node; seed C04/5B)
+    'MathAttach': _u(MATH_EXPR, ['Underscore', 'Hat', 'Hash', 'Semicolon'], CODE_EXPR, TRIVIA),
+    'MathFrac': _u(MATH_EXPR, ['Slash', 'Hash', 'Semicolon'], CODE_EXPR, TRIVIA),
+    'MathRoot': _u(MATH_EXPR, ['Root', 'Hash', 'Semicolon'], CODE_EXPR, TRIVIA),
     'MathPrimes': ['Prime'],
     'Args': _u(['LeftParen', 'RightParen', 'Comma', 'Semicolon', 'Named', 'Spread', 'Hash'], CODE_EXPR, MATH_EXPR, TRIVIA),
     'Array': _u(['LeftParen', 'RightParen', 'Comma', 'Spread', 'Hash'], CODE_EXPR, MATH_EXPR, TRIVIA),
